@@ -1,6 +1,6 @@
 (* C15 — property theorems only.  Proofs live in Proofs/MergeProofs.v and Proofs/MeshProofs.v. *)
 From Coq Require Import List String Bool Arith ZArith Permutation.
-From Annet Require Import Model.Merge Spec.P_C15 Proofs.MergeProofs.
+From Annet Require Import Model.Merge Model.Mesh Spec.P_C15 Proofs.MergeProofs Proofs.MeshProofs.
 Import ListNotations.
 Open Scope string_scope.
 
@@ -58,6 +58,50 @@ Theorem C15_field_order :
 Proof. intros m l l' H. apply nfold_perm. exact H. Qed.
 Print Assumptions C15_field_order.
 
+(* ---- executor model (tier B; one handler call per session) ---------------------------------- *)
+
+(* a rule matching (A, B) is found from A in direct order and from B in reverse order, with the
+   same (left, right): the handler is called with the same arguments on both ends *)
+Theorem C15_lookup_both_orientations :
+  forall matches rules A B nbsA nbsB r,
+    In A nbsB ->
+    (In (Matched r true A B) (lookup_direct matches rules A nbsA) ->
+     In (Matched r false A B) (lookup_direct matches rules B nbsB)) /\
+    (In (Matched r false B A) (lookup_direct matches rules A nbsA) ->
+     In (Matched r true B A) (lookup_direct matches rules B nbsB)).
+Proof. exact lookup_direct_mirror. Qed.
+Print Assumptions C15_lookup_both_orientations.
+
+(* Mirror: the two ends of a session exchange local and connected DTO; hence the peer on each
+   side points at the address and AS number the handler assigned to the other side, and
+   families / vrf / group agree whenever the two DTOs agree on them (C15_session_shared: always,
+   for attributes set on the session only). *)
+Theorem C15_mirror :
+  forall handler dto A B r o L R L' R' ports loc con,
+    execute_direct_pair handler dto A B (Matched r o L R) ports = Some (Ok (loc, con)) ->
+    execute_direct_pair handler dto B A (Matched r (negb o) L' R') (map swap ports) = Some (Ok (con, loc)) /\
+    let pA := to_bgp_peer loc con B in
+    let pB := to_bgp_peer con loc A in
+    p_addr pA = ip_val (attr "addr" con) /\ p_addr pB = ip_val (attr "addr" loc) /\
+    p_remote_as pA = p_local_as pB /\ p_remote_as pB = p_local_as pA /\
+    (attr "families" loc = attr "families" con -> p_families pA = p_families pB) /\
+    (attr "vrf" loc = attr "vrf" con -> p_vrf_name pA = p_vrf_name pB) /\
+    (attr "group_name" loc = attr "group_name" con -> p_group_name pA = p_group_name pB).
+Proof. exact mesh_mirror. Qed.
+Print Assumptions C15_mirror.
+
+Theorem C15_session_shared :
+  forall handler dto A B r L R ports loc con f,
+    execute_direct_pair handler dto A B (Matched r true L R) ports = Some (Ok (loc, con)) ->
+    (let '(l, rr, _) := handler (r_id r) A B (map fst ports) in lookup f l = None /\ lookup f rr = None) ->
+    attr f loc = attr f con.
+Proof. exact mesh_session_shared. Qed.
+Print Assumptions C15_session_shared.
+
+(* not proved: mirror after the keyed merge of several handlers (the two ends group by different
+   keys); the statement is Proofs.MeshProofs.C15_mirror_merged_statement, checked on the real
+   executor by the correspondence run only *)
+
 (* ---- non-vacuity -------------------------------------------------------------------------- *)
 
 Definition ex_leaf : schema :=
@@ -106,3 +150,22 @@ Example C15_uselast_is_order_dependent :
   order_free (MMerge sch) = false /\
   same_mod_concat sch (merge sch a b) (merge sch b a) = false.
 Proof. vm_compute. split; reflexivity. Qed.
+
+(* mirror, non-vacuous: a handler assigning addresses per side and AS/families on the session *)
+Definition ex_dto : schema :=
+  [("addr", MForbidChange); ("asnum", MForbidChange); ("families", MUnite); ("lag", MForbidChange)].
+Definition ex_handler (_ : nat) (l r : string) (ports : list string) : entries * entries * entries :=
+  ([("addr", VAtom (AStr "10.0.0.1/31")); ("lag", VAtom (AInt 1))],
+   [("addr", VAtom (AStr "10.0.0.0/31")); ("asnum", VAtom (AInt 65002))],
+   [("families", VSet [AStr "ipv4_unicast"])]).
+
+Example C15_example_mirror :
+  let m := Matched (Rule 0 United) true "a1" "b1" in
+  execute_direct_pair ex_handler ex_dto "a1" "b1" m [("e1", "e7"); ("e2", "e8")] =
+    Some (Ok ([("addr", VAtom (AStr "10.0.0.1/31")); ("lag", VAtom (AInt 1)); ("families", VSet [AStr "ipv4_unicast"])],
+              [("addr", VAtom (AStr "10.0.0.0/31")); ("asnum", VAtom (AInt 65002)); ("families", VSet [AStr "ipv4_unicast"])])) /\
+  target_interface [("addr", VAtom (AStr "10.0.0.1/31")); ("lag", VAtom (AInt 1))] ["e1"; "e2"]
+                   (fun _ => "Trunk1") (fun _ => "Vlan") (fun p _ => p) = Some "Trunk1" /\
+  target_interface [("addr", VAtom (AStr "10.0.0.0/31"))] ["e7"; "e8"]
+                   (fun _ => "Trunk1") (fun _ => "Vlan") (fun p _ => p) = None.
+Proof. vm_compute. repeat split. Qed.
